@@ -258,6 +258,24 @@ pub fn check(ctx: &Ctx, rep: &mut Report) {
         basic(ctx, rep, n, &s);
         rep.count("random_strings", 1);
     }
+    // characters that the standard library classifies (white space, numeric, format) but an ASCII-minded
+    // helper may not: short strings, so that each of them is met in first position too
+    const EXOTIC: [char; 18] = [
+        '\u{feff}', '\u{a0}', '\u{c}', '\u{b}', '\u{85}', '\u{2003}', '\u{2028}', '\u{3000}', '\u{200b}', '\u{301}', '²', '½', '\u{663}', '\u{2167}', '\0',
+        '\r', '\n', '\u{1f}',
+    ];
+    let nex = ctx.size(200_000, 2_000_000) / ctx.nshards;
+    for k in 0..nex {
+        let n = total + (1 << 38) + k;
+        if !ctx.wants(n) {
+            continue;
+        }
+        let mut rng = ctx.rng("exotic", k);
+        let len = 1 + rng.below(8);
+        let s: String = (0..len).map(|_| if rng.coin() { *rng.pick(&EXOTIC) } else { *rng.pick(&ALPHA) }).collect();
+        basic(ctx, rep, n, &s);
+        rep.count("exotic_strings", 1);
+    }
     // quoted-run cases
     let nq = ctx.size(400_000, 4_000_000) / ctx.nshards;
     for k in 0..nq {
